@@ -45,6 +45,9 @@ def base_program(name, ndds):
         p.call("i", "Hopen", "f.hdf", 7, ndds, bind="f")
         for i in range(1, 8):
             p.call("i", "Hputelement", V("f"), 900, i, bytes([i]) * (i * 3), i * 3)
+        # a descriptor without data of its own: with 4 descriptors per block it opens a new descriptor block,
+        # which is then the last thing in the file
+        p.call("i", "Hdupdd", V("f"), 901, 1, 900, 1)
         p.call("i", "Hclose", V("f"))
         return p, "f.hdf"
     if name == "dfsd":
